@@ -296,6 +296,7 @@ def verify(contract, all_contracts=(), timeout_ms=10000, mutate=None, negate_pos
         def run():
             eng.loop_ctr, eng.loop_specs = [0], contract.loops
             eng.ghost_at = contract.ghost_at
+            eng.stmt_ghosts = any(':stmt:' in k for k in contract.ghost_at)
             eng.lemmas = {l.name: l for l in contract.lemmas}
             eng.cur_fn = contract.qualname
             cx = Cx(eng, menv, owner)
